@@ -20,6 +20,15 @@ CHECKS = {
  "C04": (E1, "bounded-exhaustive history enumeration over programs with untracked reads; must-re-execute monitor + reference values",
          "For every history over external-cell changes published by synthetic writes of LOW/MEDIUM/HIGH durability, input writes and requests: every answer of a function whose last execution read untracked state must have been produced by an execution in the same revision, values equal the reference reading the external cells as of that revision, and dependents obey the C03 justification monitor (equal value => reused).",
          "Bounded depth/programs. External state only changes together with a new revision (salsa's documented contract).", "5/C04"),
+ "C12": (E1, "bounded-exhaustive enumeration of cyclic programs x histories on the real database against a Kleene least-fixpoint reference and a fresh-database differential",
+         "Programs: every 3-node program over 27 monotone node templates on the bit-set lattice (join, meet, input masks, input-controlled branches, calls to any node incl. itself) with cycle_initial = bottom and default / joining cycle_fn (thorough: all 2 x 19683; quick: named shapes + a stride sample), all histories of depth 4 over input writes, every node as entry point, and a code swap that forms/breaks cycles; after every operation the value must equal the least fixpoint computed by Kleene iteration, and a fresh database with the same inputs must agree on every node.",
+         "Bounded (3 nodes + optional plain caller, depth 4, 3-bit lattice). Known findings (genuine defects of the pinned tree, see known_findings.json / DESIGN.md) are reported as KNOWN-FINDING lines.", "5/C12"),
+ "C13": (E1, "bounded-exhaustive enumeration of cycle_result programs x histories against an SCC-analysis reference and a fresh-database differential",
+         "Same program space as C12 with every node declared cycle_result (plus plain callers outside): after every operation of every history each node in a cyclic SCC of the input-determined call graph must return its fallback and every other node its body value; a fresh database must agree.",
+         "Bounded as C12. Call edges depend on inputs only (no value-dependent control flow). Known findings reported as KNOWN-FINDING.", "5/C13"),
+ "C15": (E1, "bounded-exhaustive history enumeration over fixpoint systems that provably have no fixpoint; panic/iteration-bound/recovery oracle",
+         "Six fixpoint-free systems (self-successor, negation pair, nested with a diverging inner cycle, input-conditional divergence, ...; absence of any fixpoint is decided by brute force over the value domain) x all histories of depth 4-5 over writes, requests of every node and a code swap that makes the system monotone: a request into the diverging cycle must panic (iteration limit or propagated panic), never iterate more than 200 times, unrelated nodes answer correctly in the same revision, and after the swap every node equals the least fixpoint.",
+         "A hang (no panic at all) would stall the worker and surface as a machinery timeout rather than a VIOLATION line.", "5/C15"),
  "C16": (E2, "exhaustive preemption-bounded schedule exploration (iterative context bounding) of the real code on a controlled scheduler; every schedule compared with the sequential reference; deadlock/livelock detection",
          "Every interleaving with <= k preemptions (k=2 for 2 threads, 1 for 3 threads in quick; +1 in thorough) of reader threads on clones of one database over 8 DAG programs with shared sub-queries x several request assignments; in every schedule each request must return the reference value and all threads must terminate (a state with no enabled thread is reported as deadlock, a step bound as livelock).",
          "SC interleavings only; scheduling points = salsa's own sync shim operations; third-party lock-free code executes atomically between points; bounded preemptions and scenarios.", "5/C16"),
